@@ -1,4 +1,4 @@
-use std::fmt;
+use std::{fmt, rc::Rc};
 
 use crate::{
     ink_list::InkList,
@@ -187,13 +187,20 @@ impl Value {
         }
     }
 
-    pub fn retain_list_origins_for_assignment(old_value: &dyn RTObject, new_value: &dyn RTObject) {
+    // An empty list assigned over a list keeps the origins of the list it
+    // replaces. The assigned value can be shared (a literal in the story
+    // content, the value of another variable), so it is copied, not changed.
+    pub fn retain_list_origins_for_assignment(old_value: &Value, new_value: Rc<Value>) -> Rc<Value> {
         if let Some(old_list) = Self::get_value::<&InkList>(old_value)
-            && let Some(new_list) = Self::get_value::<&InkList>(new_value)
+            && let Some(new_list) = Self::get_value::<&InkList>(new_value.as_ref())
             && new_list.items.is_empty()
         {
-            new_list.set_initial_origin_names(old_list.get_origin_names());
+            let list = InkList::new();
+            list.set_initial_origin_names(old_list.get_origin_names());
+            return Rc::new(Value::new::<InkList>(list));
         }
+
+        new_value
     }
 
     pub fn get_cast_ordinal(&self) -> u8 {
